@@ -133,10 +133,52 @@ def run_c13(tier, replay=None):
         n, smp = raygeom_part(R, tier, wd, payload)
         nt += n
         samples += smp
+    # the exact scenes of Shading.tla, which go through the whole query path of the code: collect_occluders (each polygon
+    # behind its own bounding-box test), the acceleration structure over them, the ray / polygon test. A ray must be blocked
+    # exactly when it meets an obstacle of the scene, whatever box the obstacle sits in.
+    if payload is None or payload.get("part") == "scenes":
+        strace = os.path.join(wd, "scenes_trace.ndjson")
+        if payload is None:
+            res = mc_ok(tlc("MC_Shading", "MC_Shading.cfg", "C13_scenes_mc", workers=4, timeout=3000), "MC_Shading")
+            if res["violated"]:
+                raise ToolError("Shading.tla violated: %s" % res["violated"])
+            R.add_mc("MC_Shading.cfg (scenes)", res)
+            cf = os.path.join(wd, "scene_cases.ndjson")
+            cs = res["cases"] if tier != "quick" else res["cases"][::3]
+            write_ndjson(cf, cs)
+            vh(["shading", "--cases", cf, "--scenes-only", "--out", strace], timeout=3600)
+        else:
+            write_ndjson(strace, payload["events"])
+        sev = read_ndjson(strace)
+        sfails, scons, _ = validate_trace("Trace_Shading", strace, "C12", "C13_scenes_trace")
+        if not scons:
+            raise ToolError("scene trace not consumed")
+        nt += len(sev)
+        for line, p, name in sfails:
+            if name not in ("SunlitFractionIsShareOfUnblockedSamplePoints", "NoPanic"):
+                continue          # (the reveal / outline finding is C12's)
+            e = sev[line - 1]
+            R.violation("ScenesThroughOccluders:%s" % name, "a ray through the occluder set of an exact scene does not match exact geometry (%s): %s" % (name, json.dumps(e)[:300]),
+                        {"events": [e], "part": "scenes"})
+        if payload is None and not R.violations:
+            bad = None
+            for e in sev:
+                if e["ev"] == "Scene" and e.get("ok") and 0 < e["got25"] < 25 and not (e.get("shift") and e["sc"]["win"]["sb"] > 0):
+                    bad = dict(e, got25=e["got25"] + 1)
+                    break
+            if bad is None:
+                raise ToolError("negative control for the scenes could not be constructed")
+            cfile = os.path.join(wd, "scenes_control.ndjson")
+            write_ndjson(cfile, [bad])
+            cf2, _, _ = validate_trace("Trace_Shading", cfile, "C12", "C13_scenes_control")
+            fired = any(n == "SunlitFractionIsShareOfUnblockedSamplePoints" for _, _, n in cf2)
+            R.cov["negative_controls"].append({"corruption": "one more sample point of an exact scene reported unblocked", "rejected": fired})
+            if not fired:
+                raise ToolError("negative control did not fire for the scenes")
     R.cov["distinct_nontrivial"] = nt
     R.cov["rule"] = "BVH: distinct non-empty element sets built (TLC-enumerated small sets + seeded families up to 200 elements: random, duplicated, coinciding centres, collinear); geometry: distinct (polygon, pose, ray) cases with the crossing point at least 1 mm from the outline"
     R.cov["samples"] = samples
     R.cov["checker_cmd"] = "tlc MC_Bvh_fixed.cfg; tlc Trace_Bvh.cfg (TRACE=work/C13/bvh_trace.ndjson)"
-    R.cov["trusted_base"] = ["TLC 1.8.0", "hooks H1 in bvh.rs (add-only)", "harness bvhcheck.rs", "AABB::intersects as the element test of the exhaustive scan"]
+    R.cov["trusted_base"] = ["TLC 1.8.0", "hooks H1 in bvh.rs (add-only)", "harness bvhcheck.rs (exact rational slab test for free rays)", "harness shading.rs (exact scenes)"]
     R.assumptions = ["exact scenes use integer boxes and axis-parallel rays with origins off the box planes; free rays are only compared accelerated vs exhaustive"]
     return R.finish()
